@@ -5,6 +5,8 @@ import Proofs.Lemmas.SSZLeaf
 import Proofs.Lemmas.SSZLeafImpl
 import Proofs.Lemmas.SSZCanonical
 import Zrnt.Gen.SszFacts
+import Zrnt.Gen.SszRoot
+import Proofs.Lemmas.SSZDenoteLeaf
 /-!
 # C05 — hash-tree-roots agree across struct form, view form and the SSZ specification
 
@@ -79,26 +81,108 @@ theorem htr_eq_spec_of_decode (H : Hash2) (t : Ty) (bs : Bytes) (v : Val) (h : d
   htr_eq_htrSpec H t v (decode_some_aux t bs v h).1
 
 open Zrnt.Schema Zrnt.Schema.Facts Zrnt.Gen.SszFacts in
-/-- **Struct form and view form against the schema** (facts regenerated from /repo): for every Go SSZ type whose
-`HashTreeRoot` body has a recognised shape, it merkleizes the struct's fields in the schema's order
-(`hFn.HashTreeRoot`), resp. the list/vector/bitfield with the schema's limit and the helper that packs the
-schema's element type (`ComplexListHTR`/`Uint64ListHTR`/`Uint8ListHTR`/`BitListHTR`/`ByteListHTR`/…); and every
-tree-view type definition (`XType`: `ContainerType`, `ListType`, `VectorType`, `BitListType` …, field order,
-element types, limit expressions) denotes the specification schema — for all configurations. This is the
-`HashTreeRoot`/view-type part of `Zrnt.Schema.Facts.checkType`, the same per-row obligations as C04's
-`ssz_methods_agree`. -/
+/-- **Struct form and view form against the schema** (facts regenerated from /repo, module `Zrnt.Gen.SszRoot`): for every
+Go SSZ type, the `HashTreeRoot` body merkleizes the struct's fields in the schema's order (`hFn.HashTreeRoot`; the
+struct declaration has the schema's fields with the schema's field types), resp. the list/vector/bitfield with the
+schema's limit and the helper that packs the schema's element type (`ComplexListHTR`/`Uint64ListHTR`/`Uint8ListHTR`/
+`BitListHTR`/`ByteListHTR`/…); and every tree-view type definition (`XType`: `ContainerType`, `ListType`,
+`VectorType`, `BitListType` …, field order, element types, limit expressions) denotes the specification schema — for
+all configurations. This is the `.root` part of `Zrnt.Schema.Facts.checkType`; the four encoding methods are the
+`.codec` part (C04's `ssz_methods_agree`, module `Zrnt.Gen.SszCodec`), json/yaml tags a third table (C04): a method body
+that stops agreeing is charged to the property that speaks about that method. -/
 theorem htr_struct_and_view_agree_with_schema :
-    ∀ T ∈ types, T.name ∉ knownDeviations.map (·.1) → checkType owners views T = none := by
+    ∀ T ∈ types, T.name ∉ knownDeviations.map (·.1) → checkType owners views .root T = none := by
   intro T h hdev
-  have hrow := List.all_eq_true.mp all_rows_ok T h
+  have hrow := List.all_eq_true.mp Zrnt.Gen.SszRoot.all_rows_ok T h
   unfold rowOk at hrow
-  cases hc : checkType owners views T with
+  cases hc : checkType owners views .root T with
   | none => rfl
   | some r =>
     exfalso
     simp only [hc, List.any_eq_true, Bool.and_eq_true, beq_iff_eq] at hrow
     obtain ⟨d, hd, hn, _⟩ := hrow
     exact hdev (hn ▸ List.mem_map_of_mem hd)
+
+/-! ## What a checked row means for `HashTreeRoot`: the Go method computes the specification's `hash_tree_root` -/
+
+open Zrnt.Schema Zrnt.Schema.Facts Zrnt.Gen.SszFacts in
+/-- no `HashTreeRoot` body of the regenerated table is outside the recognised shapes -/
+theorem no_opaque_root_bodies : types.all (fun T => !T.hashTreeRoot.isOpaque) = true := by decide +kernel
+
+open Zrnt.Schema Zrnt.Schema.Facts Zrnt.Gen.SszFacts in
+theorem root_not_opaque (T : GoType) (hT : T ∈ types) : T.hashTreeRoot.isOpaque = false := by
+  simpa using List.all_eq_true.mp no_opaque_root_bodies T hT
+
+open Zrnt.Schema Zrnt.Schema.Facts Zrnt.Gen.SszFacts in
+/-- **`HashTreeRoot` of struct types.** For a row whose schema is a container, with field implementations that meet the
+specification (compositional hypothesis `EnvOk`, as in C04's `checkType_sound_struct`): the model of
+`hFn.HashTreeRoot(fields…)` over the fields in the order the body lists them is `hash_tree_root` of the container. -/
+theorem checkType_root_struct (H : Hash2) (c : Config) (env : Env) (T : GoType) (hT : T ∈ types)
+    (hdev : T.name ∉ knownDeviations.map (·.1)) (sfs : SFields) (fields : List GoField)
+    (hschema : Spec.lookup T.name = some (.container sfs)) (hdecl : T.decl = .struct fields)
+    (henv : EnvOk H c env fields) :
+    structRoot H env fields T.hashTreeRoot = some (htr H ((STy.container sfs).eval c)) := by
+  obtain ⟨hs, hroot⟩ := extract_struct_root owners views T sfs fields (htr_struct_and_view_agree_with_schema T hT hdev) hschema hdecl
+  exact structRoot_sound H c owners views env fields sfs hs henv _ (root_not_opaque T hT) hroot
+
+open Zrnt.Schema Zrnt.Schema.Facts Zrnt.Gen.SszFacts in
+/-- **`HashTreeRoot` of list wrapper types**: `ComplexListHTR / Uint64ListHTR / Uint8ListHTR(…, limit)` with the limit
+expression of the body evaluated under `c` is `hash_tree_root` of `List[elem, limit]` — the limit is the schema's under
+every configuration and the packing helper fits the element type. -/
+theorem checkType_root_list (H : Hash2) (c : Config) (T : GoType) (hT : T ∈ types)
+    (hdev : T.name ∉ knownDeviations.map (·.1)) (elem : STy) (lim : LExpr)
+    (hschema : Spec.lookup T.name = some (.list elem lim)) :
+    listRoot H c (specImpl H (elem.eval c)) T.hashTreeRoot = some (htr H ((STy.list elem lim).eval c)) := by
+  have hroot := extract_list_root owners views T elem lim (htr_struct_and_view_agree_with_schema T hT hdev) hschema
+  exact listRoot_sound H c owners views elem lim _ (root_not_opaque T hT) hroot
+
+open Zrnt.Schema Zrnt.Schema.Facts Zrnt.Gen.SszFacts in
+/-- **`HashTreeRoot` of vector types**: `ComplexVectorHTR / ChunksHTR / Uint64VectorHTR(…, len)` — a length the body takes
+from the receiver (`len(a)`) is the receiver's — is `hash_tree_root` of `Vector[elem, len]` on every well-typed value. -/
+theorem checkType_root_vector (H : Hash2) (c : Config) (T : GoType) (hT : T ∈ types)
+    (hdev : T.name ∉ knownDeviations.map (·.1)) (elem : STy) (len : LExpr)
+    (hschema : Spec.lookup T.name = some (.vector elem len)) :
+    ∃ r, vecRoot H c (specImpl H (elem.eval c)) T.hashTreeRoot = some r ∧
+      ∀ v, WF ((STy.vector elem len).eval c) v → r v = htr H ((STy.vector elem len).eval c) v := by
+  have hroot := extract_vector_root owners views T elem len (htr_struct_and_view_agree_with_schema T hT hdev) hschema
+  exact vecRoot_sound H c owners views elem len _ (root_not_opaque T hT) hroot
+
+open Zrnt.Schema Zrnt.Schema.Facts Zrnt.Gen.SszFacts in
+/-- **`HashTreeRoot` of bit fields and byte lists** (the Go value is the byte string): the byte-level models of
+`BitListHTR / BitVectorHTR / ByteListHTR(…, limit)` resp. a hand-written tree over the bytes, with the limit of the
+body evaluated under `c`, compute `hash_tree_root` at the schema on the encoding of every well-typed value. -/
+theorem checkType_root_bitfield (H : Hash2) (c : Config) (T : GoType) (hT : T ∈ types)
+    (hdev : T.name ∉ knownDeviations.map (·.1)) (lim : LExpr) (sty : STy)
+    (hkind : sty = .bitlist lim ∨ sty = .bitvector lim ∨ sty = .byteList lim)
+    (hschema : Spec.lookup T.name = some sty) :
+    ∃ r, leafRoot H c T.hashTreeRoot = some r ∧ LeafRootMeets H (sty.eval c) r := by
+  have o5 := root_not_opaque T hT
+  rcases hkind with rfl | rfl | rfl
+  · exact bitlist_root_sound H c owners views lim T o5
+      (extract_bitlist_root owners views T lim (htr_struct_and_view_agree_with_schema T hT hdev) hschema)
+  · exact bitvector_root_sound H c owners views lim T o5
+      (extract_bitvector_root owners views T lim (htr_struct_and_view_agree_with_schema T hT hdev) hschema)
+  · exact bytelist_root_sound H c owners views lim T o5
+      (extract_byteList_root owners views T lim (htr_struct_and_view_agree_with_schema T hT hdev) hschema)
+
+open Zrnt.Schema Zrnt.Schema.Facts Zrnt.Gen.SszFacts in
+/-- **`HashTreeRoot` of leaf types** (integer aliases, byte arrays): the padded little-endian chunk resp. the
+hand-written tree over the array's 32-byte slices (`handwritten_htr_sound`) is `hash_tree_root` at the schema. -/
+theorem checkType_root_leaf (H : Hash2) (c : Config) (T : GoType) (hT : T ∈ types)
+    (hdev : T.name ∉ knownDeviations.map (·.1)) (sty : STy)
+    (hkind : (∃ k, sty = .uint k) ∨ (∃ e, sty = .bytesN e))
+    (hschema : Spec.lookup T.name = some sty) :
+    ∃ r, leafRoot H c T.hashTreeRoot = some r ∧ LeafRootMeets H (sty.eval c) r := by
+  have o5 := root_not_opaque T hT
+  rcases hkind with ⟨k, rfl⟩ | ⟨e, rfl⟩
+  · exact uint_root_sound H c owners views k T o5
+      (extract_uint_root owners views T k (htr_struct_and_view_agree_with_schema T hT hdev) hschema)
+  · exact bytesN_root_sound H c owners views e T o5
+      (extract_bytesN_root owners views T e (htr_struct_and_view_agree_with_schema T hT hdev) hschema)
+
+open Zrnt.Schema Zrnt.Schema.Facts Zrnt.Gen.SszFacts in
+/-- the five root theorems cover every row of the regenerated table -/
+theorem root_soundness_covers_all_rows : types.all rowKindCovered = true := by decide +kernel
 
 /-! ## The persistent tree behind the views: no stale caches (model) -/
 
@@ -168,7 +252,7 @@ The bit fields, byte lists and integer lists of zrnt are hashed by ztyp helpers 
 representation (`[]byte`, resp. a `func(i) uint64`). `Zrnt.SSZ.Impl` models each helper at that level — chunking of
 the raw bytes, the masked delimiter bit, the chunk limit computed with shifts, the mixed-in length read off the raw
 bytes — and the theorems below identify them with `htr` on the encoding of every value. These are the `root`
-functions `checkType_sound_bitfield` / `_leaf` / `_vector` / `_list` (C04) attach to the rows that call them. -/
+functions `checkType_root_bitfield` / `_leaf` / `_vector` / `_list` above attach to the rows that call them. -/
 
 /-- **`BitListHTR(bits, limit)`**: on the raw bytes of any bitlist (data bits, delimiter bit, zero padding) — length
 from `BitlistLen` (position of the highest set bit of the last byte), payload cut to `ceil(len/8)` bytes with the
